@@ -181,6 +181,7 @@ func executeRun(prop, tier string, idx int, seed uint64, ch *Chooser, tsan bool,
 		fmt.Fprintln(os.Stderr, "no driver for", prop)
 		os.Exit(2)
 	}
+	defer startHangMonitor(idx)()
 	drv(r)
 	return r
 }
